@@ -346,6 +346,76 @@ proof fn lemma_same_rank_same_entry_kt<C: Cursor>(cs: Seq<C>, e1: Ent, e2: Ent)
     assert(cs[i1].ents()[j1].key == cs[i2].ents()[j2].key);
 }
 
+// ---------------------------------------------------------------- permuting the family changes none of the above
+proof fn lemma_member_as_allq<C: Cursor>(cs: Seq<C>, e: Ent)
+    ensures member(cs, e) == !allq(cs, |c: C| !c.ents().contains(e))
+{
+    let q = |c: C| !c.ents().contains(e);
+    if member(cs, e) {
+        let (i, j) = choose|i: int, j: int| 0 <= i < cs.len() && 0 <= j < cs[i].ents().len() && #[trigger] cs[i].ents()[j] == e;
+        assert(cs[i].ents().contains(e));
+        assert(!q(cs[i]));
+    }
+    if !allq(cs, q) {
+        let i = choose|i: int| 0 <= i < cs.len() && !q(#[trigger] cs[i]);
+        let j = choose|j: int| 0 <= j < cs[i].ents().len() && cs[i].ents()[j] == e;
+        assert(cs[i].ents()[j] == e);
+    }
+}
+proof fn lemma_family_invariants<C: Cursor>(a: Seq<C>, b: Seq<C>)
+    requires same_family(a, b)
+    ensures
+        total(a) == total(b),
+        forall|k: Seq<u8>, t: u64| #[trigger] grank(a, k, t) == grank(b, k, t),
+        forall|e: Ent| #[trigger] member(a, e) == member(b, e),
+        all_sorted(a) == all_sorted(b),
+{
+    assert(sumf(a, |c: C| c.ents().len() as int) == sumf(b, |c: C| c.ents().len() as int));
+    assert forall|k: Seq<u8>, t: u64| #[trigger] grank(a, k, t) == grank(b, k, t) by {
+        assert(sumf(a, |c: C| clt(c.ents(), k, t)) == sumf(b, |c: C| clt(c.ents(), k, t)));
+    }
+    assert forall|e: Ent| #[trigger] member(a, e) == member(b, e) by {
+        lemma_member_as_allq(a, e); lemma_member_as_allq(b, e);
+        assert(allq(a, |c: C| !c.ents().contains(e)) == allq(b, |c: C| !c.ents().contains(e)));
+    }
+    let qs = |c: C| sorted(c.ents());
+    assert(allq(a, qs) == allq(b, qs));
+    assert(all_sorted(a) == allq(a, qs));
+    assert(all_sorted(b) == allq(b, qs));
+}
+// two arrangements of one mergeable family have the same merged sequence
+proof fn lemma_family_merged<C: Cursor>(a: Seq<C>, b: Seq<C>)
+    requires same_family(a, b), mergeable(a), all_sorted(b), distinct(b)
+    ensures mergeable(b), merged(a) == merged(b)
+{
+    lemma_family_invariants(a, b);
+    assert forall|r: int| 0 <= r < total(b) implies #[trigger] has_rank(b, r) by {
+        assert(has_rank(a, r));
+        let w = choose|e: Ent| member(a, e) && #[trigger] grank(a, e.key, e.ts) == r;
+        assert(member(b, w) && grank(b, w.key, w.ts) == r);
+    }
+    assert forall|r: int| 0 <= r < total(a) implies merged(a)[r] == merged(b)[r] by {
+        lemma_merged_entry(a, r); lemma_merged_entry(b, r);
+        let ea = merged(a)[r]; let eb = merged(b)[r];
+        assert(member(b, ea) && grank(b, ea.key, ea.ts) == r);
+        lemma_same_rank_same_entry(b, ea, eb);
+    }
+    assert(merged(a) =~= merged(b));
+}
+// swapping two children keeps (key, timestamp) pairs distinct
+proof fn lemma_swap_distinct<C: Cursor>(cs: Seq<C>, x: int, y: int)
+    requires distinct(cs), 0 <= x < cs.len(), 0 <= y < cs.len()
+    ensures distinct(cs.update(x, cs[y]).update(y, cs[x]))
+{
+    let ns = cs.update(x, cs[y]).update(y, cs[x]);
+    let m = |i: int| if i == x { y } else if i == y { x } else { i };
+    assert forall|i1: int, j1: int, i2: int, j2: int| 0 <= i1 < ns.len() && 0 <= j1 < ns[i1].ents().len() && 0 <= i2 < ns.len() && 0 <= j2 < ns[i2].ents().len()
+        && #[trigger] ns[i1].ents()[j1].key == #[trigger] ns[i2].ents()[j2].key && ns[i1].ents()[j1].ts == ns[i2].ents()[j2].ts implies i1 == i2 && j1 == j2 by {
+        assert(ns[i1] == cs[m(i1)] && ns[i2] == cs[m(i2)]);
+        assert(cs[m(i1)].ents()[j1].key == cs[m(i2)].ents()[j2].key);
+    }
+}
+
 // std contract of slice::swap (ASSUMED)
 pub assume_specification<T> [<[T]>::swap] (s: &mut [T], a: usize, b: usize)
     requires a < old(s)@.len(), b < old(s)@.len(),
@@ -362,6 +432,7 @@ impl<C: Cursor> MergingCursor<C> {
         same_family(final(self).cursors@, old(self).cursors@), all_base(final(self).cursors@),
         heap_from(final(self).cursors@, final(self).comparator, index as int),
         forall|j: int| 0 <= j < index ==> final(self).cursors@[j] == old(self).cursors@[j],
+        distinct(old(self).cursors@) ==> distinct(final(self).cursors@),
 //@ >>
 //@ bodystart <<
         let ghost i0 = index as int;
@@ -399,6 +470,7 @@ impl<C: Cursor> MergingCursor<C> {
                     let ns = self.cursors@;
                     assert(ns =~= cs.update(ix, cs[ch]).update(ch, cs[ix]));
                     lemma_swap_same_family(cs, ix, ch);
+                    if distinct(cs) { lemma_swap_distinct(cs, ix, ch); }
                     lemma_same_family_trans(ns, cs, old(self).cursors@);
                     assert(all_base(ns)) by { assert forall|k: int| 0 <= k < ns.len() implies (#[trigger] ns[k]).wf_base() by { if k == ch { assert(cs[ix].wf_base()); } else if k == ix { assert(cs[ch].wf_base()); } else { assert(cs[k].wf_base()); } } }
                     assert forall|j: int| i0 < j < ns.len() && (j - 1) / 2 >= i0 && (j - 1) / 2 != ch
@@ -425,6 +497,7 @@ impl<C: Cursor> MergingCursor<C> {
                 same_family(self.cursors@, old(self).cursors@), all_base(self.cursors@),
                 i0 <= index < self.cursors@.len(),
                 forall|j: int| 0 <= j < i0 ==> self.cursors@[j] == old(self).cursors@[j],
+                distinct(old(self).cursors@) ==> distinct(self.cursors@),
                 forall|j: int| i0 < j < self.cursors@.len() && (j - 1) / 2 >= i0 && (j - 1) / 2 != index
                     ==> !lessk(cmp, keyof(self.cursors@, j), #[trigger] keyof(self.cursors@, (j - 1) / 2)),
                 index > i0 ==> forall|c: int| (c == 2 * index + 1 || c == 2 * index + 2) && c < self.cursors@.len()
@@ -434,6 +507,7 @@ impl<C: Cursor> MergingCursor<C> {
                 same_family(self.cursors@, old(self).cursors@), all_base(self.cursors@),
                 heap_from(self.cursors@, cmp, i0),
                 forall|j: int| 0 <= j < i0 ==> self.cursors@[j] == old(self).cursors@[j],
+                distinct(old(self).cursors@) ==> distinct(self.cursors@),
             decreases self.cursors@.len() - index,
 //@ >>
 //@ end
@@ -446,6 +520,7 @@ impl<C: Cursor> MergingCursor<C> {
         final(self).comparator == old(self).comparator, final(self).cursors@.len() == old(self).cursors@.len(),
         same_family(final(self).cursors@, old(self).cursors@), all_base(final(self).cursors@),
         heap_from(final(self).cursors@, final(self).comparator, 0),
+        distinct(old(self).cursors@) ==> distinct(final(self).cursors@),
 //@ >>
 //@ bodystart <<
         proof { lemma_same_family_refl(self.cursors@); }
@@ -455,6 +530,7 @@ impl<C: Cursor> MergingCursor<C> {
                 self.comparator == old(self).comparator, self.cursors@.len() == old(self).cursors@.len(),
                 self.cursors@.len() <= 0x3fff_ffff_ffff_ffff,
                 same_family(self.cursors@, old(self).cursors@), all_base(self.cursors@),
+                distinct(old(self).cursors@) ==> distinct(self.cursors@),
                 heap_from(self.cursors@, self.comparator, self.cursors@.len() - i),
 //@ >>
 //@ startloop 0 <<
